@@ -20,7 +20,7 @@ UNIQUE(volume_id, volume_index) is structural). Choices the property does not co
 slot `emptyLocation` returns, the row id SQLite assigns to a volume) are ORACLE arguments: the harness
 reports what the implementation chose, the model validates eligibility (`Res.badOracle` otherwise).
 
-Ghost fields (no counterpart in the code, used to state the theorems): `fresh`, `lostNow`.
+Ghost fields (no counterpart in the code, used to state the theorems): `fresh`, `unsynced`, `lostNow`.
 -/
 namespace Hostd.Volumes
 
@@ -143,8 +143,9 @@ structure State where
   changed   : List Nat := []           -- changedVolumes
   pending   : List Pending := []       -- writers inside StoreSector's fn
   -- ghost
-  fresh   : List SectorId := []        -- acknowledged to a writer since the last tick / crash
-  lostNow : List SectorId := []        -- location dropped by forced removal / RemoveSector, not re-stored since
+  fresh    : List SectorId := []       -- acknowledged to a writer since the last tick / crash and still located
+  unsynced : List SectorId := []       -- data written since the last Sync / restart
+  lostNow  : List SectorId := []       -- location dropped at some point by a forced removal / RemoveSector
 deriving Repr
 
 inductive Res where
@@ -285,6 +286,7 @@ def removeVolume (s : State) (v : Nat) (force : Bool) : State × Res :=
           vols := s.vols.filter (fun x => x.id != v)
           m := { s.m with physical := s.m.physical - lost, lost := s.m.lost + lost
                           total := s.m.total - vol.slots.length }
+          fresh := s.fresh.filter (fun r => !(occList vol.slots).contains r)
           lostNow := occList vol.slots ++ s.lostNow }, .ok)
 
 def setReadOnly (s : State) (v : Nat) (b : Bool) : State :=
@@ -359,7 +361,7 @@ def finish (s : State) (w : Nat) (ok : Bool) : State × Res :=
               cache := cacheAdd s.cacheSize p.r p.buf s.cache
               changed := addNew p.v s.changed
               fresh := p.r :: s.fresh
-              lostNow := s.lostNow.filter (fun x => x != p.r) }, .ok)
+              unsynced := p.r :: s.unsynced }, .ok)
       else if vol.used = 0 then (s0, .panic "volume usage is negative")
       else if s0.m.physical = 0 then (s0, .panic "negative stat value: physicalSectors")
       else
@@ -545,6 +547,7 @@ def removeSector (s : State) (r : SectorId) (data : Bool) : State × Res :=
         ({ s with vols := vs
                   m := { s.m with physical := s.m.physical - 1, lost := s.m.lost + 1 }
                   cache := if data then cacheRemove r s.cache else s.cache
+                  fresh := s.fresh.filter (fun x => x != r)
                   lostNow := r :: s.lostNow }, .ok)
 
 /-! ### migration -/
@@ -667,7 +670,7 @@ def mutate (s : State) (b : BufId) (c : Content) : State × Res :=
 
 /-- `VolumeManager.Sync`: fsync of every changed volume -/
 def sync (s : State) : State :=
-  { s with vols := s.changed.foldl (fun vs v => syncVol v vs) s.vols, changed := [] }
+  { s with vols := s.changed.foldl (fun vs v => syncVol v vs) s.vols, changed := [], unsynced := [] }
 
 def resizeCache (s : State) (n : Nat) : State := { s with cache := s.cache.take n, cacheSize := n }
 
@@ -690,7 +693,7 @@ def crash (s : State) (lost : List (Nat × Nat)) : State × Res :=
   if !lost.all (fun p => nonDurable s.vols p.1 p.2) then (s, .badOracle "durable content cannot vanish")
   else
     ({ s with vols := s.vols.map (fun v => { v with slots := crashSlots v.id lost v.slots 0, available := true })
-              cache := [], changed := [], pending := [], fresh := [] }, .ok)
+              cache := [], changed := [], pending := [], fresh := [], unsynced := [] }, .ok)
 
 /-- `VolumeManager.Close` (fsync everything) then restart -/
 def restart (s : State) : State × Res :=
